@@ -49,6 +49,13 @@ block's deadline (**not earlier**), and left the block as `TaskTimeout` — or q
 ignore forms. -/
 def ExitOK : Ev → Prop
   | .exit d r expired t => expired = true → d ≤ t ∧ (r = some .taskTimeout ∨ r = none)
+  | .gexit _ _ _ => True
+
+theorem gexit_K (anyp : Bool) (T : Int) (ms : List (Nat × Nat)) (r : Res) (s : TS) (h : Kk s) :
+    Kk (gexit anyp T ms r s).2.1 ∧ s.now ≤ (gexit anyp T ms r s).2.1.now :=
+  gexit_preserves (fun s' => Kk s' ∧ s.now ≤ s'.now)
+    (fun s' d h => ⟨(doSleep_K s' d h.1).1, Int.le_trans h.2 (doSleep_K s' d h.1).2⟩)
+    anyp T ms r s ⟨h, Int.le_refl _⟩
 
 theorem run_K (fixed : Bool) (p : Prog) : ∀ (s : TS), Kk s →
     Kk (run fixed p s).2.1 ∧ s.now ≤ (run fixed p s).2.1.now ∧
@@ -101,5 +108,17 @@ theorem run_K (fixed : Bool) (p : Prog) : ∀ (s : TS), Kk s →
       refine ⟨?_, ?_⟩
       · rw [hx.2]; exact hb.1 _ hm
       · rw [hr]; cases ig <;> simp
+  | group anyp ms body ih =>
+    intro s h
+    simp only [run]
+    have hb := ih s h
+    have hg := gexit_K anyp s.now ms (run fixed body s).1 _ hb.1
+    refine ⟨hg.1, Int.le_trans hb.2.1 hg.2, ?_⟩
+    intro ev hev
+    rcases List.mem_append.1 hev with h1 | h1
+    · exact hb.2.2 ev h1
+    · simp only [List.mem_singleton] at h1
+      subst h1
+      trivial
 
 end Aiorpcx.C11
